@@ -159,10 +159,13 @@ fn build<'a>(rules: &[RuleSpec], conv: &'a config::CommodityConversionSpec) -> E
 fn check(n_rules: usize) {
     let conv = config::CommodityConversionSpec::default();
     let all = [sym_rule(), sym_rule(), sym_rule()];
-    let rules = &all[..n_rules];
-    let ex = build(rules, &conv);
+    check_rules(&all[..n_rules], &conv);
+}
+
+fn check_rules<'a>(rules: &[RuleSpec], conv: &'a config::CommodityConversionSpec) {
+    let ex = build(rules, conv);
     let got = ex.extract(());
-    let want = spec_extract(rules, &conv);
+    let want = spec_extract(rules, conv);
     assert!(got.cleared == want.cleared);
     assert!(got.payee == want.payee);
     assert!(got.account == want.account);
@@ -179,6 +182,28 @@ fn extractor_matches_statement_2rules() {
     let n: usize = kani::any();
     kani::assume(n <= 2);
     check(n);
+}
+
+/// C17 (bounded, quick): 2 rules, OR-lists of <= 2 single-field elements.
+#[kani::proof]
+#[kani::unwind(4)]
+fn extractor_2rules_or2_and1() {
+    let conv = config::CommodityConversionSpec::default();
+    let mut all = [sym_rule(), sym_rule(), sym_rule()];
+    all[0].n_and = [1, 1];
+    all[1].n_and = [1, 1];
+    check_rules(&all[..2], &conv);
+}
+
+/// C17 (bounded, quick): 2 rules, one OR-element of <= 2 AND-fields.
+#[kani::proof]
+#[kani::unwind(4)]
+fn extractor_2rules_or1_and2() {
+    let conv = config::CommodityConversionSpec::default();
+    let mut all = [sym_rule(), sym_rule(), sym_rule()];
+    all[0].n_or = 1;
+    all[1].n_or = 1;
+    check_rules(&all[..2], &conv);
 }
 
 /// C17 (bounded, thorough): exactly 3 rules.
